@@ -15,3 +15,17 @@ META = {
    text="Each dispatch bracket's run list must equal exactly one registry state that can have been current during the bracket; tens of thousands of brackets overlap an owner operation per run, including deliveries nested on the owner at every writer failpoint.",
    note="exactness limited to single-owner signals; definitely-before relations on one SeqCst counter only"),
 }
+META.update({
+ "C06": dict(engine="native (+miri in thorough)", category="exploration",
+   technique="runtime monitoring: unique-value histories with CALL/RET stamps checked offline against queue bad-patterns (invented, duplicate, FIFO, empty, unjustified discard, loss)",
+   text="Thousands of short, closed histories per run (concurrent producers/consumers, nested batches at failpoints, real-signal senders, threads parked holding indices) are each checked against the complete bad-pattern set for queues with unique values, extended by the lossy rule derived in DESIGN.md. Held on the histories observed.",
+   note="real-time order observed on x86-TSO only; oracle uses definitely-before relations, so it can miss but not false-alarm"),
+ "C07": dict(engine="miri + native (+asan in thorough)", category="exploration",
+   technique="Miri data-race/UB/leak detection on the real UnsafeCell accesses under the declared orderings; drop-counting payloads; hook-log cell-section exclusivity check",
+   text="Miri judges the cell accesses by happens-before derived from the orderings in the source, so an ordering downgrade is reported on the first execution in which a value crosses threads; payload drops are counted exactly per value natively and under Miri; ASan/LSan in thorough.",
+   note="Miri explores a sample of interleavings/reads-from choices; no load buffering in its model"),
+ "C08": dict(engine="native (+miri in thorough)", category="fault_enumeration",
+   technique="failpoint sweep: nested operations injected at every channel hook site x occurrence x batch kind x fill, park sweep with all other threads frozen, CAS-iteration accounting, real-signal nesting",
+   text="Every (site, occurrence, batch, fill, shape) injection is run with panics caught and loop iterations counted; with 1..5 threads parked holding indices a free thread must finish each loop in exactly one iteration and return dropped/None as appropriate.",
+   note="boundaries = hook sites; arbitrary instructions only statistically; spurious CAS failure only under Miri"),
+})
